@@ -2,6 +2,7 @@
 from core import T_VARIANTS
 
 PROPS = {}
+SHIM = [__import__('os').path.join(__import__('core').VERIF, 'shim')]
 
 
 def prop(pid, rule, assumptions, level='exploration', exhaustive=None):
@@ -56,9 +57,9 @@ def c07(c):
                    "inputs for which w*d^beta or its share underflows in T are validated as probability vectors only",
                    "enabled channels with a zero datum are judged only for >=0 and the sum (the property does not constrain them)"])
 def c08(c):
-    c.std([dict(src='c08_weights.cpp', build='asan', shards={'quick': 5, 'thorough': 5}),
-           dict(src='c08_weights.cpp', build='clang', shards={'quick': 1, 'thorough': 5}, tiers=('thorough',))])
-    for k in ('refinements', 'vectors_checked', 'all_zero_data', 'channels_ratio_judged', 'adaptive_runs', 'run_vectors_checked', 'zero_iterations'):
+    c.std([dict(src='c08_weights.cpp', build='asan', shards={'quick': 5, 'thorough': 5}, extra_inc=SHIM, libs=['-pthread']),
+           dict(src='c08_weights.cpp', build='clang', shards={'quick': 1, 'thorough': 5}, tiers=('thorough',), extra_inc=SHIM, libs=['-pthread'])])
+    for k in ('refinements', 'vectors_checked', 'all_zero_data', 'channels_ratio_judged', 'adaptive_runs', 'run_vectors_checked', 'zero_iterations', 'mpi_runs', 'used_weights_judged_against_previous_result'):
         c.require(k)
 
 
@@ -79,7 +80,6 @@ def c13(c):
               'chi_square_calls', 'distribution_combinations', 'bins_checked', 'combinations_with_more_than_2^32_calls'):
         c.require(k)
 
-SHIM = [__import__('os').path.join(__import__('core').VERIF, 'shim')]
 
 
 @prop('C16',
@@ -122,7 +122,7 @@ def _t_eng_variants(nsets):
                    "engines are the nine standard ones and the listed synthetic ranges; other user engines are not explored"])
 def c10(c):
     c.std([dict(src='c10_draws.cpp', build='asan', variants=_t_eng_variants(4), shards={'quick': 1, 'thorough': 2})])
-    for k in ('engine_type_pairs_checked', 'synthetic_ranges_checked', 'calls_checked', 'runs', 'runs_with_k>=2'):
+    for k in ('engine_type_pairs_checked', 'synthetic_ranges_checked', 'calls_checked', 'runs', 'runs_with_k>=2', 'scripted_runs', 'scripted_zero_numbers'):
         c.require(k)
 
 
@@ -232,7 +232,7 @@ def c12(c):
     c.std([dict(src='c12_callbacks.cpp', build='asan', shards={'quick': 5, 'thorough': 5}, extra_inc=SHIM, libs=['-pthread'])])
     for k in ('callback_invocations_checked', 'builtin_decisions_checked', 'builtin_stops_on_target', 'stops_on_a_middle_iteration', 'stops_on_the_first_iteration',
               'target_never_reached', 'resumed_segments_checked', 'mpi_runs_checked', 'integrand_identically-zero', 'integrand_constant',
-              'integrand_non-finite-everywhere', 'integrand_zero-mean', 'positive_target_with_undefined_relative_error', 'exact_target_runs'):
+              'integrand_non-finite-everywhere', 'integrand_zero-mean', 'positive_target_with_undefined_relative_error', 'exact_target_runs', 'integrand_zero-throughout-one-iteration'):
         c.require(k)
 
 
@@ -273,4 +273,35 @@ def c05(c):
         progs.append(dict(src='c05_format.cpp', build='memcheck', variants=_t_eng_variants(3), shards={'thorough': 2}, args=['--tier', 'quick']))
     c.std(progs)
     for k in ('fields_compared', 'stored_generators_compared', 'checkpoints_plain', 'checkpoints_vegas', 'checkpoints_multi_channel'):
+        c.require(k)
+
+
+ENGINES9 = ['mt19937', 'minstd_rand', 'ranlux48', 'minstd_rand0', 'mt19937_64', 'ranlux24_base', 'ranlux48_base', 'ranlux24', 'knuth_b']
+
+
+def _t_engine_variants(engines):
+    v = []
+    for tn, td in T_VARIANTS:
+        for e in engines:
+            v.append(('%s.%s' % (tn, e), td + ['-DVF_ENG=std::%s' % e, '-DVF_ENG_NAME="%s"' % e]))
+    return v
+
+
+@prop('C15',
+      rule="case = one history run(m) [text reload] rollback(k) [text reload] resume(rest) with m in 1..4 (thorough 1..6) unequal iterations and "
+           "EVERY k in 0..m+1, for five checkpoint flavours (PLAIN with two distributions, VEGAS default grid with distributions, VEGAS user "
+           "grid, multi-channel default weights, multi-channel user weights with a disabled channel and distributions; distribution names incl. "
+           "empty / blank / leading blanks), float/double/long double, engines mt19937 / minstd_rand / ranlux48 (thorough: all nine). The rolled-back "
+           "checkpoint must serialise byte-identically to a separately executed run of only the first k iterations, have the same generator, "
+           "k>n must throw std::out_of_range and leave the text unchanged, and resuming must reproduce the original final text. "
+           "non-trivial = k<n or reloaded from text; distinct = (flavour, T, engine, calls, k, reload flags, configuration).",
+      assumptions=["the box m<=4 (6) x all k x reload flags is enumerated per sampled configuration; configurations (grid, weights, names, alpha/beta) are seeded",
+                   "ASan watches for empty-vector access; valgrind memcheck (thorough) for uninitialised members after reload + rollback"])
+def c15(c):
+    eng = ENGINES9 if c.tier == 'thorough' else ENGINES9[:3]
+    progs = [dict(src='c15_rollback.cpp', build='asan', variants=_t_engine_variants(eng), shards={'quick': 2, 'thorough': 1})]
+    if c.tier == 'thorough':
+        progs.append(dict(src='c15_rollback.cpp', build='memcheck', variants=_t_engine_variants(ENGINES9[:2]), shards={'thorough': 2}, args=['--tier', 'quick']))
+    c.std(progs)
+    for k in ('rollbacks_to_0', 'rollbacks_to_n', 'rollbacks_beyond_n', 'rollbacks_to_middle', 'reloaded_before_rollback', 'resumes_after_rollback'):
         c.require(k)
